@@ -152,11 +152,37 @@ func init() {
 			if len(got) == 0 {
 				continue
 			}
-			if id, err := got[len(got)-1].GetHeaderValue("Call-ID"); err == nil && id == sentinelID {
+			// the sentinel is the last datagram sent: it is handed over last (datagrams of one listener are handed to
+			// the message loop in the order they arrived); if it was handed over earlier, wait for the rest
+			sentinelAt := -1
+			for k, m := range got {
+				if id, err := m.GetHeaderValue("Call-ID"); err == nil && id == sentinelID {
+					sentinelAt = k
+				}
+			}
+			if sentinelAt >= 0 && sentinelAt != len(got)-1 && len(got) < n+1 {
+				continue
+			}
+			if sentinelAt >= 0 {
 				count := map[string]int{}
-				for _, m := range got[:len(got)-1] {
+				inOrder := sentinelAt == len(got)-1
+				prev := -1
+				for k, m := range got {
+					if k == sentinelAt {
+						continue
+					}
 					id, _ := m.GetHeaderValue("Call-ID")
-					count[fmt.Sprintf("%v", id)]++
+					ids := fmt.Sprintf("%v", id)
+					count[ids]++
+					if j, err := strconv.Atoi(ids[strings.LastIndex(ids, "-")+1:]); err == nil {
+						if j < prev {
+							inOrder = false
+						}
+						prev = j
+					}
+				}
+				if !inOrder {
+					return "ok n=" + a[0] + " handed-over-out-of-order"
 				}
 				var lost, dup []string
 				for i := 0; i < n; i++ {
